@@ -166,6 +166,9 @@ type State struct {
 	// params is set while the body of a declared (opaque) spec function is evaluated: every heap family the body
 	// reads becomes a hidden parameter of the SMT function, so that an application sees the heap of its own state
 	params *heapParams
+	// hv: family-name prefixes havocked by a callee ("modifies family X") in the history of this state. A family
+	// under such a prefix that is first touched afterwards must not alias its entry version.
+	hv []string
 }
 
 type heapParams struct {
@@ -174,7 +177,7 @@ type heapParams struct {
 }
 
 func (s *State) clone() *State {
-	n := &State{cells: map[*ssa.Alloc][]Term{}, heap: map[string]Term{}, alloc: s.alloc, params: s.params}
+	n := &State{cells: map[*ssa.Alloc][]Term{}, heap: map[string]Term{}, alloc: s.alloc, params: s.params, hv: append([]string(nil), s.hv...)}
 	for k, v := range s.cells {
 		n.cells[k] = append([]Term(nil), v...)
 	}
@@ -238,7 +241,6 @@ type Gen struct {
 	fuelDecl bool
 	axDone map[string]bool
 	pendingArgAddrs map[string]*Addr
-	pendingFamMods []string
 	modEffs []Effect
 	famDeclLine map[string]int
 	curLoop *loopInfo
@@ -362,7 +364,19 @@ func (g *Gen) famTerm(st *State, fam string, sort string) Term {
 		g.emit(fmt.Sprintf("(declare-const %s %s)", name, sort))
 		g.famAxiom(Term{name, sort}, fam)
 	}
+	for _, pf := range st.hv {
+		if famUnder(fam, pf) {
+			t := g.freshFam(fam, sort)
+			st.heap[fam] = t
+			return t
+		}
+	}
 	return Term{name, sort}
+}
+
+// famUnder: family fam is pf itself or a component (field, slice part, array) of it
+func famUnder(fam, pf string) bool {
+	return fam == pf || (strings.HasPrefix(fam, pf) && strings.ContainsAny(fam[len(pf):len(pf)+1], ".#["))
 }
 
 // noteLeaf records the integer range of the leaves of a family (Int-sorted fixed-width integers, lengths).
